@@ -18,9 +18,14 @@ Universe (the one the C12 probe `harness/c12/probe_test.go` drives on the real c
   per method; what is recorded is the slot content per method (`inst (.i2 j)`), the variable holds the fake iff some
   slot is set (then an unset slot panics `notImplement`), and Cancel through either method restores the whole variable;
 * handles may be kept in registers and used later (`keep r hd`, `on r ins`), also after their mocker was cancelled or
-  replaced in the builder's cache.  NOT modelled for such stale uses: the interface context's backup of the variable
-  (a cancelled interface handle that is applied again) and the variable mockers' saved origin — the probe does not
-  keep interface handles across their Cancel and never keeps variable handles;
+  replaced in the builder's cache — interface-method handles included: a cancelled interface mocker that is applied
+  again is live again while its context stays cancelled (each apply then builds a fresh fake; Cancel restores once per
+  mocking round, internal/iface IContext.restored).  NOT modelled: the context's backup VALUE — it is taken to be the
+  original, which is wrong exactly when a new context is created while the variable holds the fake of a revived handle
+  (known finding `iface-revived-handle-replaced`; the check compares such histories only up to that point) — and the
+  variable mockers' saved origin (the probe never keeps variable handles; since a4f2fe2 `Var`/`UnExportedVar` return
+  the cached mocker even when cancelled, modelled as a fresh one: indistinguishable without kept variable handles
+  because a cancelled variable mocker carries no state);
 * the builder's `map[interface{}]Mocker` is specialised to the keys that can occur: function name (`fnC`),
   `exportKey{"func", pkgName, name}` (`xfC`), `exportKey{"struct", pkgName, "*U"}` (`xsC`, value =
   `CachedUnexportedMethodMocker.mockers["um"]`), the `reflect.Type` of `*T` (`stC`, value = `CachedMethodMocker.mCache`), the type string of
